@@ -13,10 +13,17 @@ const verif::Info verif_info = {
     "unit strings in each source encoding (class-alphabet strings, well-formed text, well-formed text with 1-4 mutations, well-formed text cut at "
     "any unit, a pattern repeated up to 4096 units, raw units, empty and null-with-zero-length), pushed through all 12 conversion pairs, the 8 wchar_t "
     "aliases, 5 routes into and 4 out of ST::string, every overload route, 3 validation modes and both Latin-1 flags; inputs are exact-size heap blocks. "
-    "Oracle: outcome is a buffer or ST::unicode_error, nothing else (no other exception, assertion, sanitizer report, hang); a returned buffer has "
-    "size() == size of the reference transcoding for that input and mode, a NUL after the last unit, and no unit still holding the allocator's fill "
-    "pattern (nothing left unwritten). When the reference says the mode must reject, only the outcome kind is judged (C02 judges acceptance). "
-    "Non-trivial: malformed or truncated input of >= 2 units, or a result at/over the small-buffer limit.",
+    "Each generated input also runs one group of the extended entry points (gen/conv_calls_ext.h; directed inputs and all strings of length <= 2 run all "
+    "groups): STL string/string_view/char8_t overloads with and without a mode, C-string (ST_AUTO_SIZE, text up to the first NUL, null pointer for empty) "
+    "overloads of every width, operator+ / += with C strings and single characters on either side, set_validated/from_validated, literal operators, "
+    "ST::null forms, std::filesystem::path in/out, caller-supplied-output overloads (to_buffer, to_std_string of every type) on pre-filled targets, deprecated "
+    "utf_validation_t overloads, view(start,length), and set()/operator=/+= from a pointer or view into the target itself (arbitrary slice, all modes). "
+    "First byte 0xFE: long inputs - a well-formed or garbage pattern repeated to an exact multiple of 1 Ki..1 Mi units or a few off, last character whole "
+    "or cut (over 6000 units: lean typed call layer, judged on outcome kind, size, terminator); a deterministic grid of 256 Ki..320 Ki-unit runs (up to "
+    "1 Mi in the thorough tier) is enumerated. Oracle: outcome is a buffer or ST::unicode_error, nothing else (no other exception, assertion, sanitizer "
+    "report, hang); a returned buffer has size() == size of the reference transcoding for that input and mode, a NUL after the last unit, and no unit still "
+    "holding the allocator's fill pattern (nothing left unwritten). When the reference says the mode must reject, only the outcome kind is judged (C02 "
+    "judges acceptance). Non-trivial: malformed or truncated input of >= 2 units, or a result at/over the small-buffer limit.",
     true, "exploration"};
 
 namespace {
@@ -77,6 +84,55 @@ std::string run_ext(ref::Enc from, const Units &src, unsigned xsel, size_t k, si
     return convx::for_each_ext(from, src, p, judge, calls);
 }
 
+// Inputs just under the 256 Mi-unit bound of the statement whose UTF-8 form is larger than 256 MiB (thorough tier only; as a verif_case
+// input: FD 'N' 'E' 'A' 'R' '2' '5' '6' k).  One identical expanding character; judged on outcome kind, size, terminator and sampled content.
+// Lack of memory (malloc returning null, std::bad_alloc) ends the probe without a verdict.
+std::string near_limit_probe(unsigned k, std::string *text) {
+    struct Free { void *p; ~Free() { ::free(p); } };
+    const ST::utf_validation_t modes[2] = {ST::check_validity, ST::assume_valid};
+    auto check = [](const ST::char_buffer &out, size_t want, const char *pat, size_t pn, const char *what) -> std::string {
+        if (out.size() != want) return std::string(what) + ": size() is " + verif::unum(out.size()) + " but the reference transcoding has " + verif::unum(want) + " units";
+        if (out.data()[want] != 0) return std::string(what) + ": no terminating NUL";
+        const size_t tail = want > 8192 ? want - 8192 : 0;           // every byte of the first 4 KiB and the last 8 KiB, one in ~1M in between
+        for (size_t i = 0; i < want; i = (i < 4096 || i >= tail) ? i + 1 : (i + 1000003 < tail ? i + 1000003 : tail)) if (out.data()[i] != pat[i % pn]) return std::string(what) + ": byte " + verif::unum(i) + " of the result differs from the reference transcoding";
+        return std::string();
+    };
+    try {
+        switch (k % 3) {
+        case 0: {
+            const size_t n = ((size_t)1 << 26) + 1;                  // 64 Mi + 1 UTF-32 units -> 256 MiB + 4 bytes of UTF-8
+            if (text) *text = "utf32_to_utf8 / wchar_to_utf8 of 64 Mi + 1 units U+10000";
+            char32_t *in = static_cast<char32_t *>(::malloc(n * sizeof(char32_t))); if (!in) return std::string();
+            Free guard{in};
+            for (size_t i = 0; i < n; i++) in[i] = 0x10000;
+            for (ST::utf_validation_t M : modes) { std::string w = check(ST::utf32_to_utf8(in, n, M), 4 * n, "\xF0\x90\x80\x80", 4, "utf32_to_utf8 (64 Mi + 1 units of U+10000)"); if (!w.empty()) return w; }
+            std::string w = check(ST::wchar_to_utf8(reinterpret_cast<const wchar_t *>(in), n, ST::substitute_invalid), 4 * n, "\xF0\x90\x80\x80", 4, "wchar_to_utf8 (64 Mi + 1 units of U+10000)");
+            return w; }
+        case 1: {
+            const size_t n = 0x10000000 / 3 + 3;                     // ~85.3 Mi UTF-16 units -> just over 256 MiB of UTF-8
+            if (text) *text = "utf16_to_utf8 / ST::string::from_utf16 of 0x10000000/3 + 3 units U+20AC";
+            char16_t *in = static_cast<char16_t *>(::malloc(n * sizeof(char16_t))); if (!in) return std::string();
+            Free guard{in};
+            for (size_t i = 0; i < n; i++) in[i] = 0x20AC;
+            for (ST::utf_validation_t M : modes) { std::string w = check(ST::utf16_to_utf8(in, n, M), 3 * n, "\xE2\x82\xAC", 3, "utf16_to_utf8 (0x10000000/3 + 3 units of U+20AC)"); if (!w.empty()) return w; }
+            ST::string st = ST::string::from_utf16(in, n, ST::substitute_invalid);
+            return check(st.to_utf8(), 3 * n, "\xE2\x82\xAC", 3, "ST::string::from_utf16 (0x10000000/3 + 3 units of U+20AC)"); }
+        default: {
+            const size_t n = ((size_t)1 << 27) + 1;                  // 128 Mi + 1 Latin-1 bytes -> 256 MiB + 2 bytes of UTF-8
+            if (text) *text = "latin_1_to_utf8 / ST::string::from_latin_1 of 128 Mi + 1 bytes E9";
+            char *in = static_cast<char *>(::malloc(n)); if (!in) return std::string();
+            Free guard{in};
+            memset(in, 0xE9, n);
+            std::string w = check(ST::latin_1_to_utf8(in, n), 2 * n, "\xC3\xA9", 2, "latin_1_to_utf8 (128 Mi + 1 bytes E9)"); if (!w.empty()) return w;
+            ST::string st = ST::string::from_latin_1(in, n);
+            return check(st.to_utf8(), 2 * n, "\xC3\xA9", 2, "ST::string::from_latin_1 (128 Mi + 1 bytes E9)"); }
+        }
+    } catch (const ST::unicode_error &e) { return std::string("well-formed input under the 256 Mi-unit bound rejected: ") + e.what(); }
+    catch (const std::bad_alloc &) { return std::string(); }
+    catch (...) { return "outcome is neither a buffer nor ST::unicode_error: " + verif::describe_current_exception(); }
+}
+static const uint8_t kNearMagic[8] = {0xFD, 'N', 'E', 'A', 'R', '2', '5', '6'};
+
 std::string show_units(ref::Enc enc, const Units &u) {
     std::string s;
     char tmp[16];
@@ -94,6 +150,13 @@ int verif_case(const uint8_t *data, size_t size, Case &c) {
     const char *kind = "directed";
     const char *size_label = nullptr;
     uint8_t first = r.u8();
+    if (size == 9 && memcmp(data, kNearMagic, 8) == 0) {        // directed only: near-256-Mi probe (never produced by the generators)
+        std::string text; std::string why = near_limit_probe(data[8], &text);
+        c.label("near-256Mi-units-probe"); c.nontrivial = true;
+        if (c.want_text) c.text = "C03 near-limit probe: " + text;
+        if (!why.empty()) return c.fail(why);
+        return verif::CASE_OK;
+    }
     if (first == 0xFF) {               // directed: encoding byte, then 4 bytes per unit
         from = (ref::Enc)(r.u8() & 3);
         while (!r.exhausted()) src.push_back(r.bits32() & ugen::mask_of(from));
@@ -218,7 +281,17 @@ long verif_enumerate(int shard, int nshards, int tier, verif::EnumReport &r) {
             if (r.want_sample() && gi % 41 == 7) r.samples.push_back(desc + " [enumerated grid]");
         }
     }
+    if (tier && shard == nshards - 1) {     // thorough tier: three inputs just under the 256 Mi-unit bound whose UTF-8 form exceeds 256 MiB (one at a time)
+        for (unsigned k = 0; k < 3; k++) {
+            uint8_t d[9]; memcpy(d, kNearMagic, 8); d[8] = (uint8_t)k; verif::set_current(d, 9);
+            std::string text; std::string why = near_limit_probe(k, &text);
+            r.evaluations++; r.nontrivial++;
+            if (!why.empty()) { r.failure = why; r.failing_case = "C03 near-limit probe: " + text; r.failing_bytes.assign(d, d + 9); return r.evaluations; }
+            if (r.want_sample()) r.samples.push_back("C03 near-limit probe: " + text);
+        }
+    }
     if (shard == 0) {
+        if (tier) r.exhausted.push_back("three near-limit inputs (64 Mi+1 UTF-32 units of U+10000, 0x10000000/3+3 UTF-16 units of U+20AC, 128 Mi+1 Latin-1 bytes E9: under the 256 Mi-unit bound, UTF-8 form over 256 MiB) to UTF-8 and into ST::string");
         r.exhausted.push_back(std::string("grid of long inputs: runs of one identical unit/character (Latin-1 E9 FF 80 and E9 41; U+00E9 U+20AC U+1F600 U+10FFFF in UTF-8/16/32; garbage units 80 C2 E0 F0 FF / D800 DC00 FFFF / D800 110000 FFFFFFFF), total ") +
                               (tier ? "4 Ki .. 1 Mi units incl. 64 Ki, 256 Ki, 320 Ki, 512 Ki, 1 Mi and one off" : "256 Ki-1, 256 Ki, 256 Ki+1, 300 Ki, 320 Ki units") + ", filler in front or behind, last character whole or cut, every conversion reading that encoding x 3 modes");
         r.exhausted.push_back(std::string("all UTF-8 strings of length <= ") + (tier ? "5" : "4") + " over the 18-byte class alphabet 00 41 7F 80 90 A0 BF C0 C2 DF E0 ED EF F0 F4 F7 F8 FF, every conversion reading UTF-8 x 3 modes");
